@@ -84,7 +84,7 @@ Lemma is_double_1_23456 : is_double (mkD false 694995494495815 (-49)).
 Proof. unfold is_double. split; [split; vm_compute; congruence|]. split; vm_compute; congruence. Qed.
 
 (* hypotheses satisfiable: precision raised ('1.5' <- 1.23456), scratch, jump, blank sign + scientific,
-   and a case that ends in the ".17g" fall-back ('1.5' <- 1.234e-12) *)
+   and a case that ends in the ".17g" fall-back ('1.5' <- 1.23456789e-13) *)
 Example C05_float_close_ex_precision :
   exists nd, make_node KFloat (TText "1.5") (Some [PStr " "]) false = Ok nd /\
     is_double (mkD false 694995494495815 (-49)) /\
@@ -101,7 +101,7 @@ Print Assumptions C05_float_close_ex_precision.
 Example C05_float_close_ex_scratch :       (* ValueNode(None, float).value = 1.23456789 *)
   exists nd, make_node KFloat TNone None false = Ok nd /\
     format (set_value nd (VFlt (mkD false 5559999489367579 (-52)))) = Ok "1.23456789 ".
-Proof. eexists. split; vm_compute; reflexivity. Qed.
+Proof. eexists. split; [vm_compute; reflexivity|]. vm_compute. reflexivity. Qed.
 Print Assumptions C05_float_close_ex_scratch.
 
 Example C05_float_close_ex_blank_sign :    (* '-1.5e0' <- 2.5: sign option ' ' *)
@@ -109,9 +109,9 @@ Example C05_float_close_ex_blank_sign :    (* '-1.5e0' <- 2.5: sign option ' ' *
 Proof. vm_compute. reflexivity. Qed.
 Print Assumptions C05_float_close_ex_blank_sign.
 
-Example C05_float_close_ex_fallback :      (* '1.5' <- 1.234e-12: no "%.pf" with p <= 17 reads back *)
-  render KFloat (TText "1.5") (Some [PStr " "]) false (VFlt (mkD false 6112403146294505 (-92)))
-  = Ok "1.2339999999999999e-12 ".
+Example C05_float_close_ex_fallback :      (* '1.5' <- 1.23456789e-13: no "%.pf" with p <= 17 reads back *)
+  render KFloat (TText "1.5") (Some [PStr " "]) false (VFlt (mkD false 4890627271190621 (-95)))
+  = Ok "1.23456789e-13 ".
 Proof. vm_compute. reflexivity. Qed.
 Print Assumptions C05_float_close_ex_fallback.
 
@@ -278,12 +278,12 @@ Print Assumptions C05_conv_int_exact_partial.
 
 Example C05_conv_int_exact_partial_ex :    (* '0012.0' converted, <- 7 *)
   exists nd, make_node KConv (TText "0012.0") (Some [PStr " "]) false = Ok nd /\
-    fortran_float "0012.0" = Ok (mkD false 12 0) /\ conv_int "0012.0" = Ok 12 /\
-    py_eq (VInt 12) (VFlt (mkD false 12 0)) = true /\
-    format (set_value nd (VInt 7)) = Ok "7      ".
+    fortran_float "0012.0" = Ok (mkD false 6755399441055744 (-49)) /\ conv_int "0012.0" = Ok 12 /\
+    py_eq (VInt 12) (VFlt (mkD false 6755399441055744 (-49))) = true /\
+    format (set_value nd (VInt 7)) = Ok "000007 ".
 Proof.
   eexists. split; [vm_compute; reflexivity|]. split; [vm_compute; reflexivity|].
-  split; [vm_compute; reflexivity|]. split; vm_compute; reflexivity.
+  split; [vm_compute; reflexivity|]. split; [vm_compute; reflexivity|]. vm_compute. reflexivity.
 Qed.
 Print Assumptions C05_conv_int_exact_partial_ex.
 
